@@ -481,13 +481,16 @@ def _run_program(ctx, prog, lb, plan, stats, judge_cases, judge_meta):
             for pr in PROTOS:
                 k = step if t == "tcp" else step * 5
                 off = rng.randrange(k)
-                sizes = list(range(3900 + off, 4140, k)) + list(range(8000 + off, 8240, k * 2)) + [0, 1, 65536 + off]
+                sizes = list(range(3900 + off, 4140, k)) + list(range(8000 + off, 8240, k * 2)) + [0, 1] + \
+                    ([65536 + off] if plan.get("huge") else [])
                 for i in range(0, len(sizes), 60):
                     req, calls = plan_boundary(rng, P, t, pr, sizes[i:i + 60])
                     sessions.append((req, calls, fn, "Echo", fn, "Echo", t, pr))
     else:
         sessions = plan_program(rng, P, svcs, plan)
+    t_run = __import__("time").time()
     resps = lb.run([s[0] for s in sessions], timeout=900)
+    stats["ms_sessions"] += int(1000 * (__import__("time").time() - t_run))
     per_case = collections.OrderedDict()
     for (req, calls, cfn, csvc, sfn, ssvc, transport, proto), resp in zip(sessions, resps):
         stats["sessions"] += 1
@@ -619,6 +622,65 @@ def _run_program(ctx, prog, lb, plan, stats, judge_cases, judge_meta):
             judge_meta.append((idl, metas[i:i + 150]))
 
 
+# ------------------------------------------------------------------------------------------------
+# hand-written probes: constructs of valid IDL the seeded generator does not produce
+
+PROBES = {
+    # the same exception type twice in a throws clause (directly and through a typedef): the processor's type switch
+    # must take each Go type once (was: "duplicate case *E in type switch", repaired)
+    "dup_exception_type": {
+        "idl": "exception E { 1: string why }\ntypedef E EA\n"
+               "service S {\n  i32 m(1: i32 x) throws (1: E a, 2: E b, 3: EA c)\n}\n",
+        "calls": True},
+    # arguments named like identifiers the generator uses itself in the emitted client / processor functions
+    # (known finding: the emitted Go does not compile)
+    "arg_names_collide": {
+        "idl": "service S {\n" + ",\n".join("  string m%d(1: string %s)" % (i, n) for i, n in enumerate(
+            ["err", "result", "args", "ret", "r", "f", "fctx", "fmt"])) + "\n}\n",
+        "calls": False},
+}
+
+
+def run_probes(ctx, tag):
+    out = {}
+    for name, pr in sorted(PROBES.items()):
+        pid = "%s%s" % (tag.replace("_", ""), name.replace("_", ""))
+        prog = {"id": pid, "root": pid, "files": {}, "order": []}
+        lb = lab.Lab(prog, lab_id=pid, extra_imports=["verifharness/lab/ext_c03"])
+        try:
+            lb.build(idl_texts={pid + ".frugal": pr["idl"]})
+        except lab.LabError as e:
+            if e.stage == "go" and "/f_" not in e.log:
+                out[name] = "inconclusive: only the lab's own stubs fail to compile"
+                lb.remove()
+                continue
+            out[name] = "build failed (%s)" % e.stage
+            ctx.violation("C03 probe %s: valid IDL, the emitted Go does not build (%s)" % (name, e.stage),
+                          {"probe": name, "idl": pr["idl"], "stage": e.stage, "log": e.log[-1500:]},
+                          signature={"probe": name, "stage": e.stage})
+            lb.remove()
+            continue
+        try:
+            out[name] = "builds"
+            if pr["calls"]:
+                why = b"because".hex()
+                calls = [{"method": "M", "args": [5], "outcome": {"kind": "declared", "exc": pid + ".E", "value": {"1": why}}},
+                         {"method": "M", "args": [6], "outcome": {"kind": "ret", "value": 11}}]
+                for t in TRANSPORTS:
+                    r = lb.run([{"op": "c03_session", "service": pid + ".S", "transport": t, "proto": "binary", "calls": calls}])[0]
+                    got = [(c.get("client") or {}) for c in r.get("calls", [])]
+                    ok = len(got) == 2 and got[0].get("kind") == "declared" and got[0].get("exc") == pid + ".E" and \
+                        (got[0].get("value") or {}).get("1") == why and got[1] == {"kind": "ret", "value": 11} and \
+                        all(len(c.get("handler") or []) == 1 for c in r["calls"])
+                    if not ok:
+                        ctx.violation("C03 probe %s over %s: the declared exception / value did not reach the caller" % (name, t),
+                                      {"probe": name, "idl": pr["idl"], "transport": t, "response": str(r)[:1500]})
+                        out[name] = "call failed"
+        finally:
+            lb.remove()
+    return out
+
+
 TAGS = {1: "value returned", 2: "declared exception", 4: "undeclared error -> INTERNAL_ERROR",
         8: "TApplicationException passed on", 16: "oneway without reply", 32: "oneway with error reply",
         64: "unknown method", 128: "reply rejected (name/type)", 256: "inherited method",
@@ -632,13 +694,14 @@ def run(ctx, br):
     judge_cases, judge_meta = [], []
     tag = "c03_%d" % (ctx.seed % 100000)
     if quick:
-        progs = [("boundary", {"boundary": 3}), ("small", {"combos": 6, "per_method": 3}),
+        progs = [("boundary", {"boundary": 6}), ("small", {"combos": 6, "per_method": 3}),
                  ("small", {"combos": 6, "per_method": 3}), ("medium", {"combos": 5, "per_method": 3})]
     else:
-        progs = [("boundary", {"boundary": 1})] + \
-                [(("small", "medium", "large")[i % 3], {"combos": 12, "per_method": 4}) for i in range(24)]
+        progs = [("boundary", {"boundary": 1, "huge": True})] + \
+                [(("small", "medium", "large")[i % 3], {"combos": 12, "per_method": 3}) for i in range(9)]
     sizes = collections.Counter()
     nprog = 0
+    probes = run_probes(ctx, tag)
     for i, (size, plan) in enumerate(progs):
         pid = "%sp%d" % (tag.replace("_", ""), i)
         if size == "boundary":
@@ -651,7 +714,9 @@ def run(ctx, br):
         nprog += 1
         if len(ctx.violations) - before > 30:
             break
+    t_j = __import__("time").time()
     verdicts = vlib.run_judge(ctx.rundir, "JGenCall", "judge", judge_cases, shard=500000) if judge_cases else []
+    stats["ms_judge"] += int(1000 * (__import__("time").time() - t_j))
     mism = 0
     tagbits = collections.Counter()
     validated = 0
@@ -686,6 +751,7 @@ def run(ctx, br):
                 "one (program, client service, server, transport, protocol, method, arguments, outcome) call whose handler log, "
                 "caller outcome and reply count were checked",
         "programs": nprog,
+        "probes": probes,
         "program_sizes": dict(sizes),
         "traces_validated_against_impl": validated,
         "judge_cases": len(judge_cases),
